@@ -9,8 +9,9 @@ import (
 // c07LateError: "answers of slow participants to an already finished batch do not prevent or corrupt
 // the signing of later batches" - for an ERROR answer. Batch 1 is finished by the quick participants;
 // batch 2 is proposed; the slow participant's machine fails on its batch-1 operation and its node posts
-// the error answer (the request carries no batch identifier); then the slow participant and one quick
-// one answer batch 2 correctly. t correct answers: batch 2 must be collected.
+// the error answer, which names its batch (fix ffa0973; before it the request carried no batch identifier
+// and the answer was booked on the batch being signed); then the slow participant and one quick one
+// answer batch 2 correctly. t correct answers: batch 2 must be collected.
 func c07LateError(c *Ctx) {
 	type cfg struct{ n, t int }
 	cfgs := []cfg{{3, 2}}
@@ -49,7 +50,7 @@ func c07LateError(c *Ctx) {
 		}
 		apply("event_signing_start", reqStart("batch-2", 0, T(210), task("batch-2")))
 		// the slow participant's ERROR answer to batch 1 arrives now
-		late := apply("event_signing_partial_sign_error_received", reqSigError(slow, strp("batch-1: the operator's password had expired"), T(220)))
+		late := apply("event_signing_partial_sign_error_received", reqSigError(slow, strp("batch-1: the operator's password had expired"), T(220), "batch-1"))
 		// t correct answers to batch 2: the slow participant and t-1 quick ones
 		res := apply("event_signing_partial_sign_received", sign("batch-2", slow))
 		last := res
@@ -58,7 +59,7 @@ func c07LateError(c *Ctx) {
 		}
 		if last != "ok:"+stCollected {
 			c.Fail(Failure{Property: "C07", Kind: "late-error-answer-booked-on-current-batch", Signature: map[string]interface{}{"kind": "late-error-answer-booked-on-current-batch"},
-				What: fmt.Sprintf("n=%d t=%d: a slow participant's error answer to a FINISHED batch (the request names no batch) is booked on the batch being signed: its correct partial signature for the current batch is then answered %q and the batch is not collected although %d participants answered it correctly (late error answer: %s)", n, t, res, t, late),
+				What: fmt.Sprintf("n=%d t=%d: a slow participant's error answer to a FINISHED batch (naming that batch) is booked on the batch being signed: its correct partial signature for the current batch is then answered %q and the batch is not collected although %d participants answered it correctly (late error answer: %s)", n, t, res, t, late),
 				Replay: map[string]interface{}{"n": n, "t": t, "steps": trace}})
 		}
 	}
